@@ -29,10 +29,12 @@ def main():
     meta["confirmed"]["doc_tests_with_change"] = out.strip()
     rc1, out = sh("cargo test --offline --test seeded_demo 2>&1 | grep -E '^test result|FAILED|failed' | head -8", wt)
     meta["confirmed"]["demo_with_change"] = out.strip()
-    sh("git stash push -- src", wt)
+    # (no `git stash`: the stash is shared by all worktrees of a repository)
+    tmp = os.path.join(wt, ".seed_tmp.diff")
+    sh(f"git diff -- src > {tmp} && git apply -R {tmp}", wt)
     rc2, out = sh("cargo test --offline --test seeded_demo 2>&1 | grep -E '^test result|FAILED|failed' | head -8", wt)
     meta["confirmed"]["demo_without_change"] = out.strip()
-    sh("git stash pop", wt)
+    sh(f"git apply {tmp} && rm {tmp}", wt)
     ok_suite = "94 passed; 0 failed" in meta["confirmed"]["unit_tests_with_change"] and "0 failed" in meta["confirmed"]["doc_tests_with_change"]
     ok_demo = "FAILED" in meta["confirmed"]["demo_with_change"] and "FAILED" not in meta["confirmed"]["demo_without_change"] and "ok." in meta["confirmed"]["demo_without_change"]
     meta["confirmed"]["ok"] = bool(ok_suite and ok_demo)
